@@ -2334,6 +2334,8 @@ class PitHist(Output):
             edges = np.linspace(0, 1, self._num_bins + 1)
         else:
             edges = self.thresholds
+        if len(edges) < 2:
+            verif.util.error("-m pithist needs at least two bin edges (-r)")
         num_bins = len(edges)-1
         labels = data.get_legend()
         for f in range(F):
